@@ -707,3 +707,11 @@ def rule_cmp(ctx, R):
 
 
 RULES.append(("C01.CMP", "the comparison a ? / ! area branches on: NaN unordered, equality, cross-multiplication orientation (shared with C07)", rule_cmp))
+
+
+def rule_num(ctx, R):
+    from . import p_c06
+    return p_c06.rule_arith(ctx, R)
+
+
+RULES.append(("C01.NUM", "the rational operations the commands are defined by (add, mul, flip, minus, floor for character output, is_pos, is_nan) have their defining shape (shared with C06.ARITH)", rule_num))
